@@ -27,7 +27,9 @@ ALWAYS_SEARCH = True
 RULE = ('tables of 2-6 columns x 30-300 rows drawn from a Gaussian copula: a random Cholesky factor gives a '
         'positive-definite correlation, the normal scores are pushed through marginal quantile functions from the 8 '
         'families (normal, beta, gamma, uniform, Student t, log-Laplace, truncated normal, a bimodal law for the KDE), '
-        'plus constant columns (about 1 table in 3 has one) and integer-rounded columns; labels are shuffled strings '
+        'plus constant columns (about 1 table in 3 has one), integer-rounded columns and, in about 1 table in 4, a '
+        'NON-constant column on an awkward scale (epoch seconds spread over hours, 1000 + 1e-3 y, readings ~1e-9: range '
+        'below 1e-5 of the magnitude or below 1e-8 absolute); labels are shuffled strings '
         '(incl. spaces / non-ASCII / "0") or unsorted ints; crossed with the five configuration forms (default '
         'Univariate selection [sparingly: 8 candidate fits per column], a class, a fully-qualified-name string, an '
         'instance, a per-column dict of classes/strings/instances, complete or partial, matched or deliberately '
@@ -35,7 +37,11 @@ RULE = ('tables of 2-6 columns x 30-300 rows drawn from a Gaussian copula: a ran
         'fitted model three sample sizes n from {1..200} drawn consecutively from the same model.  Every real '
         'sample(n) runs with np.random.multivariate_normal wrapped by a recorder (restored afterwards); the first '
         'draw of a seeded model is cross-checked against a replay from the seed.  A case = (table digest, '
-        'configuration, seed, n); it is non-trivial when the table has >= 2 non-constant columns and n >= 2')
+        'configuration, seed, n); it is non-trivial when the table has >= 2 non-constant columns and n >= 2.  The search '
+        '(run in the quick tier too) adds: the C01 oracle against the fitted marginals and against the TRAINING data '
+        '(no non-constant column sampled constant, sample inside the extended training range, two-sample KS for '
+        'dependable families), model.correlation vs the normal-score correlation, seed hunts for extreme draws, '
+        'scale-stress tables, and a Gaussian-copula table with a strongly dependent pair next to a constant column')
 PARTIAL = [
     'dependence_value_partial: that standard normal draws with correlation rho have Kendall tau (2/pi) asin(rho) is '
     'Sheppard\'s theorem about the bivariate normal law; not proved (search: Hoeffding band).  Proved instead: the '
@@ -997,6 +1003,26 @@ def dependence_oracle(ctx, case, stats):
         ctx.fail_input(ep, dict(inp, columns=pair), obs,
                        'model.correlation[j, k] = Pearson correlation of the training normal scores (1e-6)', cls)
     n_t = len(case['cols'][0])
+    # marginal part of the recovery clause: the family is the generating one, so the fitted cdf must be close to the
+    # training ECDF (KS <= DKW(n_train) + 0.1).  A column whose marginal is NOT recovered (scipy's MLE with a free
+    # location stuck at loc = min(X)) is reported under its own class and left out of the dependence comparison: the
+    # normal scores of a wrong marginal are meaningless.
+    good = []
+    for j in regular:
+        Dj = ks_distance(np.asarray(case['cols'][j], dtype=float), unis[j].cdf)
+        stats['max_dependence_marginal_ks'] = max(stats.get('max_dependence_marginal_ks', 0.0), Dj)
+        if Dj <= dkw_eps(n_t) + 0.1:
+            good.append(j)
+        else:
+            fam = type(unis[j]).__name__
+            ctx.fail_input(ep, dict(inp, column=j),
+                           {'ks_training_vs_fitted_cdf': Dj, 'band': dkw_eps(n_t) + 0.1, 'generating': case['descr'][j]
+                            if j < len(case.get('descr', [])) else case['kinds'][j],
+                            'fitted': {k_: float(v_) for k_, v_ in (getattr(unis[j], '_params', None) or {}).items()
+                                       if isinstance(v_, (int, float, np.floating))}},
+                           'the marginal fitted with the generating family is within DKW(n_train) + 0.1 of the training '
+                           'ECDF (generating marginals are recovered)', f'{ep}:marginal-not-recovered-{fam}')
+    regular = good
     band = hoeffding_tau_eps(n_t) + hoeffding_tau_eps(N_BIG) + 0.06
     for a in range(len(regular)):
         for b in range(a + 1, len(regular)):
@@ -1242,8 +1268,9 @@ def recovery_experiment(ctx, rng, nr, stats, use_default=False):
         dj = float(np.max(np.abs(np.asarray(model.univariates[j].cdf(grid), dtype=float) - dist.cdf(grid))))
         stats['max_recovery_marginal_dev'] = max(stats.get('max_recovery_marginal_dev', 0.0), dj)
         if not dj <= 0.12:
-            ctx.fail_input(ep, dict(small, column=j), {'sup_cdf_dev': dj}, 'sup|F_fitted - F_true| <= 0.12 on a grid',
-                           ep + ':recovery-marginal')
+            ctx.fail_input(ep, dict(small, column=j), {'sup_cdf_dev': dj, 'generating': kd},
+                           'sup|F_fitted - F_true| <= 0.12 on a grid',
+                           ep + ':marginal-not-recovered-' + type(model.univariates[j]).__name__)
         if not np.all(np.isfinite(out.iloc[:, j].to_numpy())):
             continue
         ks = ks_distance(out.iloc[:, j].to_numpy(), dist.cdf)
